@@ -219,6 +219,18 @@ Definition run_auth_seq (cfg : scram_cfg) (d : mech_desc) (lad : bool) (scripts 
       auth_seq (scram_mech (hash_of v256) (hmac_of v256) (hsize_of v256) (table_oracle tab) cfg id) lad (ss_zero, rands) scripts
   end.
 
+(* ---- the Gallina reference SCRAM server with executable crypto, for its own validation against harness/saslx ---- *)
+(* one account: [acct] with the credentials derived from the prepared password; result: server-first and, if the
+   client-final is accepted, server-final *)
+Definition ref_server_run (v256 plus : bool) (cbname cbdata snonce acct npass salt : bytes) (iter : nat)
+           (cfirst cfinal : bytes) : option (bytes * option bytes) :=
+  let c := {| sc_plus := plus; sc_cbname := cbname; sc_cbdata := cbdata; sc_snonce := snonce |} in
+  let a := store (hash_of v256) (hmac_of v256) npass salt iter in
+  match scram_server_first c (fun u => if bytes_eqb u acct then Some a else None) cfirst with
+  | None => None
+  | Some (x, sf) => Some (sf, scram_server_final (hash_of v256) (hmac_of v256) c x cfinal)
+  end.
+
 (* the configuration read from the working tree (T1) *)
 Definition gen_cfg : scram_cfg :=
   {| start_resets := Gen.scram_start_resets;
